@@ -18,6 +18,7 @@ import (
 	"github.com/ipfs/go-cid"
 	mh "github.com/multiformats/go-multihash"
 
+	"github.com/sourcenetwork/defradb/client"
 	"github.com/sourcenetwork/defradb/event"
 	"github.com/sourcenetwork/defradb/verif/cluster"
 )
@@ -169,6 +170,9 @@ type Config struct {
 	Signing    bool
 	AsyncEvery int  // every k-th behaviour is delivered through the real event bus path (0: never)
 	Quiesce    bool // after each behaviour deliver everything everywhere and compare all nodes
+	// SubEvery: every k-th behaviour runs with a GraphQL subscription open on every node and a consumer that reads
+	// only once the behaviour is over (0: never). C03: each result shows the state of the commit that triggered it.
+	SubEvery int
 }
 
 type Violation struct {
@@ -190,6 +194,8 @@ type Result struct {
 	AsyncBehaviour int            `json:"async_behaviours"`
 	ByAction       map[string]int `json:"by_action"`
 	TieBreakDiffs  int            `json:"tiebreak_diffs"`
+	SubBehaviours  int            `json:"subscription_behaviours"`
+	SubResults     int            `json:"subscription_results"`
 	Violations     []Violation    `json:"violations"`
 	HarnessErrors  []string       `json:"harness_errors"`
 }
@@ -209,6 +215,21 @@ type Driver struct {
 	cur          Behaviour
 	actCtrs      []string // abstract fields present in the behaviour being replayed
 	actRegs      []string
+	subs         []*nodeSub
+}
+
+// nodeSub is a GraphQL subscription on one node together with what the local writes of the behaviour predict for it.
+type nodeSub struct {
+	ch     <-chan client.GQLResult
+	cancel context.CancelFunc
+	expect []subExpect
+}
+
+type subExpect struct {
+	si     int
+	action string
+	row    map[string]any // what an ordinary query returned right after the write (nil for a delete)
+	obs    *Obs
 }
 
 func ctrFields(a string) []fieldSpec {
@@ -528,6 +549,14 @@ func (d *Driver) Replay(bi int, b Behaviour) {
 		d.res.AsyncBehaviour++
 	}
 	d.res.Behaviours++
+	d.subs = nil
+	if d.cfg.SubEvery > 0 && d.serial%d.cfg.SubEvery == 0 {
+		if !d.openSubs() {
+			return
+		}
+		defer d.closeSubs()
+		d.res.SubBehaviours++
+	}
 	for si := range b {
 		st := &b[si]
 		d.res.Steps++
@@ -539,11 +568,109 @@ func (d *Driver) Replay(bi int, b Behaviour) {
 		}
 		ds.lastObs[st.N-1] = st.Obs
 		d.compareNode(bi, si, ds, st.N-1, st.Obs)
+		if d.subs != nil && st.A != "deliver" {
+			// a local write: the subscription of this node owes one result showing the state of this commit,
+			// which is what the ordinary query returns right now
+			e := subExpect{si: si, action: st.A, obs: st.Obs}
+			if rows, err := d.queryDoc(n, ds, false, ""); err == nil && len(rows) == 1 {
+				e.row = rows[0]
+			}
+			d.subs[st.N-1].expect = append(d.subs[st.N-1].expect, e)
+		}
 		if len(d.res.Violations) > 50 {
 			return
 		}
 	}
+	if d.subs != nil {
+		d.checkSubs(bi, ds)
+	}
 	d.finalChecks(bi, len(b), ds)
+}
+
+func (d *Driver) openSubs() bool {
+	for _, n := range d.nodes {
+		ctx, cancel := context.WithCancel(d.ctx)
+		res := n.DB.ExecRequest(ctx, fmt.Sprintf(`subscription { Doc { %s } }`, d.selection()))
+		if len(res.GQL.Errors) > 0 || res.Subscription == nil {
+			cancel()
+			d.herr("subscription on %s: %v", n.Name, res.GQL.Errors)
+			d.closeSubs()
+			return false
+		}
+		d.subs = append(d.subs, &nodeSub{ch: res.Subscription, cancel: cancel})
+	}
+	return true
+}
+
+func (d *Driver) closeSubs() {
+	for _, s := range d.subs {
+		s.cancel()
+		// let the routine see the cancellation (it may be parked on the unbuffered result channel)
+		go func(ch <-chan client.GQLResult) {
+			for range ch {
+			}
+		}(s.ch)
+	}
+	d.subs = nil
+}
+
+// checkSubs reads the results of every subscription only now, after all the writes of the behaviour: the consumer was
+// slow, so every event but the first was evaluated while later commits of the same document already existed.
+func (d *Driver) checkSubs(bi int, ds *docState) {
+	for ni, s := range d.subs {
+		n := d.nodes[ni]
+		for _, e := range s.expect {
+			if strings.HasSuffix(e.action, "del") {
+				// a delete leaves no live document to report: no result (a stray one is taken for the result of
+				// the next write, or reported as extra at the end)
+				continue
+			}
+			var got *client.GQLResult
+			wait := 5 * time.Second
+			select {
+			case r, ok := <-s.ch:
+				if ok {
+					got = &r
+				}
+			case <-time.After(wait):
+			}
+			if got == nil {
+				d.violate("C03", bi, e.si, "subscription-missing", "subscription on %s: no result for the local %s of step %d within %s", n.Name, e.action, e.si, wait)
+				return
+			}
+			d.res.SubResults++
+			if len(got.Errors) > 0 {
+				d.violate("C03", bi, e.si, "subscription-error", "subscription on %s: result for step %d carries errors %v", n.Name, e.si, got.Errors)
+				return
+			}
+			norm, err := cluster.Normalize(got.Data)
+			if err != nil {
+				d.herr("subscription result: %v", err)
+				return
+			}
+			rows := cluster.Rows(norm, "Doc")
+			if len(rows) != 1 {
+				d.violate("C03", bi, e.si, "subscription-rows", "subscription on %s: result for step %d has %d rows", n.Name, e.si, len(rows))
+				return
+			}
+			where := fmt.Sprintf("subscription on %s, result for the %s of step %d", n.Name, e.action, e.si)
+			d.compareDocRow("C03", bi, e.si, ds, where, rows[0], e.obs)
+			if e.row != nil {
+				for k, v := range e.row {
+					if !sameJSON(rows[0][k], v) {
+						d.violate("C03", bi, e.si, "subscription-vs-query", "%s: %s = %v, but the ordinary query right after that commit returned %v", where, k, rows[0][k], v)
+					}
+				}
+			}
+		}
+		select {
+		case r, ok := <-s.ch:
+			if ok {
+				d.violate("C03", bi, len(d.cur), "subscription-extra", "subscription on %s: a result beyond one per local write: %v", n.Name, r.Data)
+			}
+		case <-time.After(60 * time.Millisecond):
+		}
+	}
 }
 
 // recordLinks remembers the field blocks linked by a freshly written commit and checks that block identity
